@@ -97,8 +97,12 @@ where
     /// assert_eq!(0, framework.iter_attacks().count());
     /// ```
     pub fn new_with_argument_set(arguments: ArgumentSet<T>) -> Self {
-        let attacks_from = (0..arguments.len()).map(|_| vec![]).collect();
-        let attacks_to = (0..arguments.len()).map(|_| vec![]).collect();
+        let n_ids = match arguments.max_id() {
+            Some(max_id) => max_id + 1,
+            None => 0,
+        };
+        let attacks_from = (0..n_ids).map(|_| vec![]).collect();
+        let attacks_to = (0..n_ids).map(|_| vec![]).collect();
         AAFramework {
             arguments,
             attacks: vec![],
